@@ -6,10 +6,10 @@ package main
 
 import (
 	"bytes"
-	"io"
 	"compress/gzip"
 	"context"
 	"fmt"
+	"io"
 	"net/http"
 	"net/http/httptest"
 	"sort"
